@@ -393,6 +393,10 @@ def builder_case(src: str) -> Optional[str]:
         b.buildModules()
     except RecursionError:
         return None   # not this property's business (C01)
+    except Exception as e:  # noqa
+        if type(e).__name__ == 'JobTimeout':
+            raise
+        return f'walk-aborted:{type(e).__name__}@{pd.exc_site(e)} (every extension is left inside the nodes it had entered)'
     if gave_up:
         return None   # the walk was abandoned (tree too deep, reported): an abandoned walk is not a pruned walk (C01's business)
     for bb in captured:
